@@ -363,6 +363,7 @@ pub fn read_wig(c: &Case, bytes: Vec<u8>, out: &mut String) {
     };
     writeln!(out, "OPEN ok").unwrap();
     header_lines(r.info(), out);
+    let zoom_levels: Vec<u32> = r.info().zoom_headers.iter().map(|z| z.reduction_level).collect();
     let mut r = r;
     match r.get_summary() {
         Ok(s) => writeln!(
@@ -409,7 +410,16 @@ pub fn read_wig(c: &Case, bytes: Vec<u8>, out: &mut String) {
                     Ok(v) => writeln!(out, "A {} ok{}", $qi, rle_values(&v)).unwrap(),
                 },
                 "zoom" => {
-                    let lvl: u32 = q[5].parse().unwrap();
+                    // `#k` = the k-th stored level; a plain number = that reduction level
+                    let lvl: u32 = if let Some(k) = q[5].strip_prefix('#') {
+                        let k: usize = k.parse().unwrap();
+                        match zoom_levels.get(k) {
+                            Some(l) => *l,
+                            None => u32::MAX,
+                        }
+                    } else {
+                        q[5].parse().unwrap()
+                    };
                     match rd.get_zoom_interval(&q[2], s, e, lvl) {
                         Err(_) => writeln!(out, "A {} err Zoom", $qi).unwrap(),
                         Ok(it) => {
@@ -501,6 +511,7 @@ pub fn read_bed(c: &Case, bytes: Vec<u8>, out: &mut String) {
     };
     writeln!(out, "OPEN ok").unwrap();
     header_lines(r.info(), out);
+    let zoom_levels: Vec<u32> = r.info().zoom_headers.iter().map(|z| z.reduction_level).collect();
     let mut r = r;
     match r.get_summary() {
         Ok(s) => writeln!(
@@ -552,7 +563,16 @@ pub fn read_bed(c: &Case, bytes: Vec<u8>, out: &mut String) {
                     }
                 },
                 "zoom" => {
-                    let lvl: u32 = q[5].parse().unwrap();
+                    // `#k` = the k-th stored level; a plain number = that reduction level
+                    let lvl: u32 = if let Some(k) = q[5].strip_prefix('#') {
+                        let k: usize = k.parse().unwrap();
+                        match zoom_levels.get(k) {
+                            Some(l) => *l,
+                            None => u32::MAX,
+                        }
+                    } else {
+                        q[5].parse().unwrap()
+                    };
                     match rd.get_zoom_interval(&q[2], s, e, lvl) {
                         Err(_) => writeln!(out, "A {} err Zoom", $qi).unwrap(),
                         Ok(it) => {
